@@ -37,8 +37,8 @@ func init() {
 	})
 	register(&Rule{
 		ID:    "RECOMP-1",
-		Doc:   "cut values are recomputed, not accumulated: in every function that stores Edge.CutValue, each load of CutValue is dominated by a store to CutValue through the same base value in the same function (no upward-exposed read of a stale cut value)",
-		Floor: 1,
+		Doc:   "cut values are recomputed, not accumulated: in every function that stores Edge.CutValue, each load of CutValue is dominated by a store to CutValue through the same base value in the same function (no upward-exposed read of a stale cut value); a function that changes tree membership (stores Edge.IsInSpanningTree) and recomputes cut values itself does so on every path from the change to its return",
+		Floor: 2,
 		Ctl:   []string{"internal__phase2__recomp1.go.txt"},
 		Run:   runRecomp1,
 	})
@@ -494,9 +494,66 @@ func agg1CallerSide(m *Model, r *RuleResult, updates map[*ssa.Function]map[int]b
 	}
 }
 
+// recomp2: a function that changes tree membership (stores Edge.IsInSpanningTree) and recomputes the numbering/cut values itself
+// must do so on every path from the change to its return.
+func recomp2(m *Model, r *RuleResult) {
+	m.fxInit()
+	for _, f := range m.Src {
+		var flagStores []*ssa.Store
+		eachInstr(f, func(in ssa.Instruction) {
+			if st, ok := in.(*ssa.Store); ok {
+				if fa, ok := st.Addr.(*ssa.FieldAddr); ok {
+					base, steps := fieldChain(fa)
+					if locOfSteps(steps) == igEdge+".IsInSpanningTree" && !isFreshObject(base, 0) {
+						flagStores = append(flagStores, st)
+					}
+				}
+			}
+		})
+		if len(flagStores) == 0 {
+			continue
+		}
+		var recompCalls []ssa.CallInstruction
+		eachInstr(f, func(in ssa.Instruction) {
+			if ci, ok := in.(ssa.CallInstruction); ok {
+				for _, cal := range m.Callees(ci) {
+					if e := m.effects[cal]; e != nil && e.Mod[igEdge+".CutValue"] && cal != f {
+						recompCalls = append(recompCalls, ci)
+					}
+				}
+			}
+		})
+		if len(recompCalls) == 0 {
+			continue // the recomputation is the caller's job (tree construction)
+		}
+		cfg := getCFG(f)
+		key := "tree-change-recomputed:" + funcKey(f)
+		ctl := m.FuncIsPosctl(f)
+		var bad []string
+		for _, st := range flagStores {
+			ok := false
+			for _, rc := range recompCalls {
+				if (rc.Block() == st.Block() && instrIndex(rc) > instrIndex(st)) || (rc.Block() != st.Block() && cfg.postDominates(rc.Block(), st.Block())) {
+					ok = true
+				}
+			}
+			if !ok {
+				bad = append(bad, "after the tree change at "+m.Pos(st.Pos())+" a return is reachable without recomputing the cut values")
+			}
+		}
+		if len(bad) > 0 {
+			r.add(Obligation{Key: key, Pos: m.Pos(flagStores[0].Pos()), Desc: "cut values must be recomputed after every change of the spanning tree", Verdict: "violation",
+				Detail: strings.Join(uniq(bad), "; ") + ": later pivots read cut values and lim/low numbers of a tree that no longer exists", Control: ctl})
+		} else {
+			r.add(Obligation{Key: key, Pos: m.Pos(flagStores[0].Pos()), Desc: "every change of tree membership is followed, on every path, by the recomputation of the cut values", Verdict: "holds", Control: ctl})
+		}
+	}
+}
+
 // ---------- RECOMP-1 ----------
 
 func runRecomp1(m *Model, r *RuleResult) {
+	defer recomp2(m, r)
 	loc := igEdge + ".CutValue"
 	for _, f := range m.Src {
 		var stores []*ssa.Store
